@@ -16,6 +16,19 @@ package git
 //@   ensures result1 ==> len(iter.data) < len(old(iter.data))
 //@   ensures result1 ==> len(iter.data) + len(result0.Name) + 22 <= len(old(iter.data))
 //@   ensures !result1 ==> len(result0.Name) == 0 && result0.Filemode == 0
+// lossless: an entry is `<mode> SP <name> NUL <20 id bytes>`; the name is
+// exactly the bytes between the first SP and the next NUL, the id exactly the
+// 20 bytes after that NUL, the mode what ParseUint made of the bytes before
+// the SP, and the rest of the data starts right behind the id.
+//@   call 0 IndexByte as sp
+//@   call 1 IndexByte as nul
+//@   call 0 ParseUint as pm
+//@   call 0 ParseUint assert same(arg_0, iter.data[:sp]) && arg_1 == 8 && arg_2 == 32
+//@   ensures result1 ==> sp >= 0 && nul >= 0 && same(result0.Name, old(iter.data)[sp+1:sp+1+nul])
+//@   ensures result1 ==> result0.OID == oidat(old(iter.data), sp+1+nul+1)
+//@   ensures result1 ==> same(iter.data, old(iter.data)[sp+1+nul+1+20:])
+//@   ensures result1 ==> wide(result0.Filemode) == wide(pm0) && pm1 == nil
+//@   ensures result1 ==> old(iter.data)[sp] == 32 && old(iter.data)[sp+1+nul] == 0
 
 //@ func (Tree).Size
 //@   pure
@@ -73,6 +86,10 @@ package git
 //@   pure
 //@   ensures result1 == nil ==> len(result0.data) > 0 && len(result0.data) <= len(data)
 //@   ensures result1 == nil ==> result0.data[len(result0.data)-1] == '\n'
+// the iterator sees a prefix of the object that contains no blank line: it
+// ends with the LF that closes the last header line (header block only)
+//@   ensures result1 == nil ==> forall k int :: 0 <= k && k < len(result0.data) ==> result0.data[k] == data[k]
+//@   ensures result1 == nil ==> forall k int :: 0 <= k && k < len(result0.data) - 1 ==> !(data[k] == 10 && data[k+1] == 10)
 
 //@ func OIDFromBytes
 //@   pure
@@ -84,15 +101,37 @@ package git
 //@   pure
 //@   ensures result1 == nil && len(result0) == 42
 
+// Per header line (in order): a `parent` line appends exactly the id its value
+// spells, a `tree` line sets the tree (a second one is an error), every other
+// line — in particular a continuation line, whose key is empty — changes
+// neither. The iterator only ever sees the header block (NewObjectHeaderIter).
 //@ func ParseCommit
 //@   pure
 //@   loop 0 decreases len(iter.data)
+//@   call 0 ObjectHeaderIter).Next as nx
+//@   call 0 NewOID as pOID
+//@   call 1 NewOID as tOID
+//@   loop 0 step nx0 == "parent" ==> pOID_reached && pOID1 == nil && len(parents) == prev(len(parents)) + 1 && parents[len(parents)-1] == pOID0 && tree == prev(tree) && treeFound == prev(treeFound)
+//@   loop 0 step nx0 == "tree" ==> tOID_reached && tOID1 == nil
+//@   loop 0 step nx0 == "tree" ==> !prev(treeFound) && treeFound
+//@   loop 0 step nx0 == "tree" ==> tree == tOID0
+//@   loop 0 step nx0 == "tree" ==> len(parents) == prev(len(parents))
+//@   loop 0 step nx0 != "parent" && nx0 != "tree" ==> len(parents) == prev(len(parents)) && tree == prev(tree) && treeFound == prev(treeFound)
+//@   loop 0 step forall k int :: 0 <= k && k < prev(len(parents)) ==> parents[k] == prev(parents)[k]
+//@   call 0 NewOID assert same(arg_0, nx1)
+//@   call 1 NewOID assert same(arg_0, nx1)
 //@   ensures result1 == nil ==> result0 != nil
 //@   ensures result1 == nil ==> wide(result0.Size) == min(wide(len(data)), 4294967295)
 
 //@ func ParseTag
 //@   pure
 //@   loop 0 decreases len(iter.data)
+//@   call 0 ObjectHeaderIter).Next as nx
+//@   call 0 NewOID as rOID
+//@   loop 0 step nx0 == "object" ==> rOID_reached && rOID1 == nil && !prev(referentFound) && referentFound && referent == rOID0 && same(referentType, prev(referentType)) && referentTypeFound == prev(referentTypeFound)
+//@   loop 0 step nx0 == "type" ==> !prev(referentTypeFound) && referentTypeFound && same(referentType, nx1) && referent == prev(referent) && referentFound == prev(referentFound)
+//@   loop 0 step nx0 != "object" && nx0 != "type" ==> referent == prev(referent) && referentFound == prev(referentFound) && same(referentType, prev(referentType)) && referentTypeFound == prev(referentTypeFound)
+//@   call 0 NewOID assert same(arg_0, nx1)
 //@   ensures result1 == nil ==> result0 != nil
 //@   ensures result1 == nil ==> wide(result0.Size) == min(wide(len(data)), 4294967295)
 
